@@ -30,6 +30,54 @@ MODES = ["random", "random", "perm", "perm", "identity_clean", "identity_clean",
          "dup_key", "ghost", "seg0"]
 
 
+# array dtype dimension: name -> (numpy dtype, largest label/id base used by the generator, k of the 2^k multiples)
+# (64-bit: values are kept <= 2^61 so that the OCaml driver's native ints and int64 copies hold them exactly)
+DTYPES = {"uint8": (np.uint8, 255, 8), "uint16": (np.uint16, 65535, 16), "int32": (np.int32, 2 ** 31 - 1, 31),
+          "int64": (np.int64, 2 ** 61, 40), "uint64": (np.uint64, 2 ** 61, 40)}
+BUILDER_MAX_ID = 300000
+DTYPE_DRAW = ["uint8"] * 6 + ["uint16"] * 4 + ["int32"] * 3 + ["int64"] * 5 + ["uint64"] * 2
+
+
+def mk_array(a64, dt, dask):
+    arr = a64.astype(DTYPES[dt][0])
+    if dask:
+        import dask.array as da
+
+        return da.from_array(arr, chunks=(1, *arr.shape[1:]))
+    return arr
+
+
+def widen(rng, a, rows, dt, ident):
+    """spread labels up to the dtype maximum and node ids beyond it (injectively; 0 stays 0)"""
+    _, top, k = DTYPES[dt]
+    narrow = dt in ("uint8", "uint16", "int32")
+    if rng.random() < 0.4:
+        lm = {v: top - (v - 1) for v in range(1, 13) if rng.random() < 0.5}
+        for v, w in lm.items():
+            a[a == v] = -w
+        a[a < 0] *= -1
+        rows = [((lm.get(i, i) if ident else i), t, lm.get(l, l)) for i, t, l in rows]
+    if not ident and rng.random() < (0.75 if narrow else 0.4):
+        orig = sorted({r[0] for r in rows})
+        taken, im = set(), {}
+        for i in orig:
+            u = rng.random()
+            if i == 0 or u < 0.3:
+                c = i
+            elif u < 0.65:
+                c = top - 5 + i            # uint8: 251.., uint16: 65531.., int32: 2^31-5..
+            elif u < 0.85:
+                c = i * 2 ** k             # wraps to 0 in a k-bit buffer
+            else:
+                c = 2 ** k + i             # wraps to the small value i
+            if c in taken or (c != i and c in orig):
+                c = i                      # original ids are pairwise distinct and never taken by a transformed one
+            taken.add(c)
+            im[i] = c
+        rows = [(im[i], t, l) for i, t, l in rows]
+    return a, rows
+
+
 def pframes(a):
     return ";".join(",".join(str(int(x)) for x in fr.reshape(-1)) for fr in a)
 
@@ -59,8 +107,8 @@ def detections(a):
     return [(t, int(l)) for t in range(a.shape[0]) for l in np.unique(a[t]) if l != 0]
 
 
-def gen_case(rng, mode):
-    """returns (seg, rows [(id, time, seg_id)], parents {id: parent id}, tags)"""
+def gen_case(rng, mode, dt="int64"):
+    """returns (seg as int64 reference array, rows [(id, time, seg_id)], parents {id: parent id}, tags)"""
     T = rng.randint(2, 4)
     shape = rng.choice(SHAPES_3D) if rng.random() < 0.3 else rng.choice(SHAPES_2D)
     ident = mode.startswith("identity")
@@ -110,6 +158,7 @@ def gen_case(rng, mode):
             t = rng.randrange(T)
             rows.insert(rng.randrange(len(rows) + 1), (fresh.pop(0), t, 0))
             tags.add("seg0")
+    a, rows = widen(rng, a, rows, dt, ident)
     if rng.random() < 0.5:
         rows.sort(key=lambda r: r[1])
     else:
@@ -175,7 +224,7 @@ def oracle(a, rows, parents, out, nodes_time, edges, shifted):
 
 
 # ----------------------------------------------------------------------------- implementation runs
-def run_direct(a, rows, parents):
+def run_direct(a, rows, parents, dt="int64", dask=False):
     from funtracks.import_export._import_segmentation import relabel_segmentation
 
     g = nx.DiGraph()
@@ -183,7 +232,7 @@ def run_direct(a, rows, parents):
         g.add_node(i, time=t)
     for c, p in parents.items():
         g.add_edge(p, c)
-    out = relabel_segmentation(a.copy(), g, np.array([r[0] for r in rows], dtype=np.int64),
+    out = relabel_segmentation(mk_array(a, dt, dask), g, np.array([r[0] for r in rows], dtype=np.int64),
                                np.array([r[2] for r in rows], dtype=np.int64), np.array([r[1] for r in rows], dtype=np.int64))
     return np.asarray(out), {int(n): int(g.nodes[n]["time"]) for n in g.nodes}, [(int(u), int(v)) for u, v in g.edges]
 
@@ -206,7 +255,7 @@ def builder_rows(a, rows):
     return None
 
 
-def run_builder(a, rows, parents):
+def run_builder(a, rows, parents, dt="int64", dask=False):
     import pandas as pd
     from funtracks.import_export import tracks_from_df
 
@@ -216,10 +265,10 @@ def run_builder(a, rows, parents):
     for k, ax in enumerate(["z", "y", "x"][-nd:]):
         d[ax] = [p[k] for p in pos]
     d["seg_id"] = [r[2] for r in rows]
-    tr = tracks_from_df(pd.DataFrame(d), segmentation=a.copy())
+    tr = tracks_from_df(pd.DataFrame(d), segmentation=mk_array(a, dt, dask))
     out = np.asarray(tr.segmentation)
     g = tr.graph
-    return out, {int(n): int(g.nodes[n]["time"]) for n in g.nodes}, [(int(u), int(v)) for u, v in g.edges], out.dtype == np.uint64
+    return out, {int(n): int(g.nodes[n]["time"]) for n in g.nodes}, [(int(u), int(v)) for u, v in g.edges], (None if dt == "uint64" else out.dtype == np.uint64)
 
 
 def canon(out, nodes_time):
@@ -243,23 +292,42 @@ def run(ctx):
     n = 520 if ctx.quick() else 6500
     cases, lines = [], []
     stats = {"direct_runs": 0, "builder_runs": 0, "builder_skipped_no_pixels": 0, "2D": 0, "3D": 0,
-             "shortcut_taken(model)": 0, "relabel_branch(model)": 0, "empty_rows": 0}
+             "shortcut_taken(model)": 0, "relabel_branch(model)": 0, "empty_rows": 0,
+             "builder_skipped_huge_ids": 0, "dask_array": 0, "ids_beyond_dtype_max": 0, "ids_multiple_of_2^bits": 0, "labels_near_dtype_max": 0}
     for k in range(n):
         mode = MODES[k % len(MODES)]
-        a, rows, parents, tags = gen_case(rng, mode)
+        dt = rng.choice(DTYPE_DRAW)
+        dask = rng.random() < 0.08
+        a, rows, parents, tags = gen_case(rng, mode, dt)
         tg = classify(a, rows, tags)
+        stats["dtype_" + dt] = stats.get("dtype_" + dt, 0) + 1
+        stats["dask_array"] += int(dask)
+        real_max = int(np.iinfo(DTYPES[dt][0]).max)
+        off_ = 1 if any(i == 0 for i, _, _ in rows) else 0
+        if any(i + off_ > real_max for i, _, _ in rows):
+            stats["ids_beyond_dtype_max"] += 1
+            stats["ids_beyond_dtype_max_" + dt] = stats.get("ids_beyond_dtype_max_" + dt, 0) + 1
+        if any(i + off_ > real_max and (i + off_) % (real_max + 1) == 0 for i, _, _ in rows):
+            stats["ids_multiple_of_2^bits"] += 1
+        if a.size and int(a.max()) >= DTYPES[dt][1] - 11 and dt in ("uint8", "uint16", "int32"):
+            stats["labels_near_dtype_max"] += 1
         stats["mode_" + mode] = stats.get("mode_" + mode, 0) + 1
         stats["3D" if a.ndim == 4 else "2D"] += 1
         if not rows:
             stats["empty_rows"] += 1
-        cases.append(("R", a, rows, parents, tg))
+        cases.append(("R", a, rows, parents, tg, dt, dask))
         lines.append("R %s#%s" % (prow(rows), pframes(a)))
         brows = builder_rows(a, rows)
         id0_shortcut = "segids_eq_ids" in tg and "id0" in tg  # node 0 with seg id 0: outside C13_handle_segmentation
         if brows is None or id0_shortcut:
             stats["builder_skipped_no_pixels"] += 1
             continue
-        cases.append(("H", a, brows, parents, classify(a, brows, tags)))
+        if any(i + off_ > BUILDER_MAX_ID for i, _, _ in rows):
+            # SolutionTracks runs regionprops on the imported array: scipy find_objects allocates max_label slots
+            # (a node id of 2^31 or more kills the interpreter) - outside C13, so such cases only go the direct way
+            stats["builder_skipped_huge_ids"] += 1
+            continue
+        cases.append(("H", a, brows, parents, classify(a, brows, tags), dt, dask))
         lines.append("H %s#%s" % (prow(brows), pframes(a)))
     rc, mout = C.run_driver(ctx.driver, lines)
     divergences, violations, samples = [], [], []
@@ -267,18 +335,21 @@ def run(ctx):
     if rc != 0 or len(mout) != len(lines):
         divergences.append({"what": "model driver failed", "rc": rc, "out": mout[-3:]})
         mout = [""] * len(lines)
-    for (kind, a, rows, parents, tg), line, mo in zip(cases, lines, mout):
+    for (kind, a, rows, parents, tg, dt, dask), line, mo in zip(cases, lines, mout):
+        inp = {"line": line, "dtype": dt, "dask": dask, "shape": list(a.shape)}
         for x in tg:
             stats["tag_" + x] = stats.get("tag_" + x, 0) + 1
         has0 = any(i == 0 for i, _, _ in rows)
         try:
             if kind == "R":
                 stats["direct_runs"] += 1
-                out, nt, edges = run_direct(a, rows, parents)
+                out, nt, edges = run_direct(a, rows, parents, dt, dask)
                 io, mc = canon(out, nt), canon_model(mo)
             else:
                 stats["builder_runs"] += 1
-                out, nt, edges, relabelled = run_builder(a, rows, parents)
+                out, nt, edges, relabelled = run_builder(a, rows, parents, dt, dask)
+                if relabelled is None:  # uint64 source: the branch is not observable from the output dtype
+                    relabelled = mo.startswith("0")
                 io = ("0 " if relabelled else "1 ") + canon(out, nt)
                 mc = mo[:2] + canon_model(mo[2:])
                 stats["shortcut_taken(model)" if mo.startswith("1") else "relabel_branch(model)"] += 1
@@ -290,14 +361,14 @@ def run(ctx):
         if nontrivial:
             distinct.add(line)
         if io != mc:
-            divergences.append({"input": line, "impl": io, "model": mc})
+            divergences.append({"input": inp, "impl": io, "model": mc})
         if bad:
             violations.append({"what": "%s: %s" % ({"R": "relabel_segmentation", "H": "tracks_from_df(segmentation, seg_id)"}[kind], bad),
-                               "input": line, "impl": io, "model": mc, "signature": "C13:" + kind})
+                               "input": inp, "impl": io, "model": mc, "signature": "C13:" + kind})
         if len(samples) < 4 and nontrivial and kind == "RHRH"[len(samples)] and (len(samples) < 2 or has0):
-            samples.append({"input": line, "impl_output": io, "model_output": mc})
+            samples.append({"input": inp, "impl_output": io, "model_output": mc})
     return {"evaluations": len(cases), "distinct_nontrivial": len(distinct),
-            "rule": "random label arrays (2-4 frames, 4-9 pixels per frame, 2D and 3D shapes flattened in C order, 8% empty frames, labels 1..6 reused across frames; globally unique labels 1..12 in the identity modes) with row lists built in 10 modes cycled (random, permutation, id-0 and clean-identity modes twice as often as the others): random ids 0..9 over ~85% of the detections (ids collide with label values: chains), ids = a permutation of the label values, seg ids = node ids with all labels listed (shortcut) / one detection unlisted / one stray label copied into another frame, a forced node id 0, a repeated (time, seg id), a node whose seg id has no pixels, a node with seg id 0; rows sorted by time or shuffled; random forward-in-time forest as parent_id. Every case is run directly through relabel_segmentation (R) and, when some row has pixels, end-to-end through tracks_from_df (H; position = first pixel of the mask). Non-trivial = at least 2 rows and at least one row with pixels whose seg id differs from its final node id; distinct = distinct input lines.",
+            "rule": "random label arrays (2-4 frames, 4-9 pixels per frame, 2D and 3D shapes flattened in C order, 8% empty frames, labels 1..6 reused across frames; globally unique labels 1..12 in the identity modes) with row lists built in 10 modes cycled (random, permutation, id-0 and clean-identity modes twice as often as the others): random ids 0..9 over ~85% of the detections (ids collide with label values: chains), ids = a permutation of the label values, seg ids = node ids with all labels listed (shortcut) / one detection unlisted / one stray label copied into another frame, a forced node id 0, a repeated (time, seg id), a node whose seg id has no pixels, a node with seg id 0; rows sorted by time or shuffled; random forward-in-time forest as parent_id. Array dtype drawn per case from uint8 (30%), uint16 (20%), int32 (15%), int64 (25%), uint64 (10%), 8% of the arrays wrapped in a dask array; in 40% of the cases about half of the label values are moved to dtype_max-11..dtype_max (2^61 for the 64-bit types); in 75% (narrow types) / 40% (64-bit) of the non-identity cases each non-zero node id is kept (30%), moved just around the dtype maximum (35%: 250+i for uint8, 65530+i for uint16, 2^31-6+i for int32), multiplied by 2^bits (20%) or set to 2^bits+i (15%), injectively - so ids that do not fit the source dtype are common; the model is dtype-free and outputs are compared as int64. Every case is run directly through relabel_segmentation (R) and, when some row has pixels and all node ids are <= 300000 (regionprops of the imported array allocates max-label slots), end-to-end through tracks_from_df (H; position = first pixel of the mask). Non-trivial = at least 2 rows and at least one row with pixels whose seg id differs from its final node id; distinct = distinct input lines.",
             "samples": samples, "divergences": divergences, "violations": violations, "stats": stats}
 
 
@@ -310,23 +381,28 @@ def _parse(line):
 
 
 def replay(ctx, payload):
-    """re-run one input line (frames as 1 x P images, no edges) on implementation and model"""
+    """re-run one input (line + dtype + shape; no edges) on implementation and model"""
     line = payload.get("input")
     if isinstance(line, dict) and "witness" in line:
         import witnesses
 
         r = witnesses.run(ids=[line["witness"]])
         return {"violation": not all(x[2] for x in r), "detail": r}
+    dt, dask, shape = "int64", False, None
+    if isinstance(line, dict):
+        dt, dask, shape, line = line.get("dtype", "int64"), bool(line.get("dask")), line.get("shape"), line["line"]
     exe, _ = C.build_driver("C13")
     rc, mo = C.run_driver(exe, [line])
     kind, rows, a = _parse(line)
-    res = {"input": line, "model": mo}
+    if shape:
+        a = a.reshape(shape)
+    res = {"input": line, "dtype": dt, "dask": dask, "model": mo}
     has0 = any(i == 0 for i, _, _ in rows)
     try:
         if kind == "R":
-            out, nt, edges = run_direct(a, rows, {})
+            out, nt, edges = run_direct(a, rows, {}, dt, dask)
         else:
-            out, nt, edges, _ = run_builder(a, rows, {})
+            out, nt, edges, _ = run_builder(a, rows, {}, dt, dask)
         res["impl"] = canon(out, nt)
         res["violation"] = oracle(a, rows, {}, out.astype(np.int64), nt, edges, shifted=has0)
     except Exception as e:  # noqa: BLE001
